@@ -57,12 +57,12 @@ CHECKS["C02"] = {
 
 CHECKS["C09"] = {
     "registered": True,
-    "engine": "pmc-rt",
-    "technique": "stateless preemption-bounded exhaustive schedule enumeration of latch / barrier / event / call_once programs on a live 2-worker runtime and on plain OS threads",
+    "engine": "pmc-rt + spin",
+    "technique": "stateless preemption-bounded exhaustive schedule enumeration of latch / barrier / event / call_once programs on a live 2-worker runtime and on plain OS threads; plus explicit-state model checking (Spin) of a Promela model of pika::barrier that is bound to the code by comparing the complete sets of event histories of model and implementation",
     "level_text": "Every schedule within the deviation bound of every small participant program (latch arrive/wait mixes, barrier phases with arrive_and_wait / arrive+wait / arrive_and_drop and a counting completion function, event waiters incl. a late one, call_once with a throwing first attempt) is executed on the real code; departures are checked against arrival counts and completion counts, body counters against 1, and blocked waiters whose release condition holds show up as stuck executions.",
-    "level_note": "Sequentially consistent interleavings only; 2 workers; 2-3 participants; 2 barrier phases; choice points at atomics on the primitive and the task state words; polling loops (barrier spin wait) stop opening choice points after three identical iterations. The Promela barrier model sketched in DESIGN.md was not built.",
-    "rule": "pmc-rt/pmc-os: participant op mixes (data choices) x all schedules within the deviation bound",
-    "parts": [{"bin": "C09_latch_barrier"}],
+    "level_note": "Sequentially consistent interleavings only; 2 workers; 2-3 participants; 2 barrier phases; choice points at atomics on the primitive and the task state words; polling loops (barrier spin wait) stop opening choice points after three identical iterations. Secondary layer: models/barrier.pml (one transition per atomic operation of barrier.hpp / barrier.cpp) is verified by Spin for up to 4 (thorough 5) participants, 3 phases, arrive_and_drop, arbitrary start nodes and phase-byte wrap-around; its event histories are compared with those of the real barrier (equal sets for the n=2 configurations explored completely, implementation subset of model for n=3 within the bound); on a mismatch the model layer is dropped and says so.",
+    "rule": "pmc-rt/pmc-os: participant op mixes (data choices) x all schedules within the deviation bound; spin: all reachable states of the barrier model for the listed parameters + history-set comparison with the implementation",
+    "parts": [{"bin": "C09_latch_barrier"}, {"bin": "C09_barrier_conf", "kind": "buildonly"}, {"bin": "harness/c09_barrier_model.py", "kind": "script", "part": "barrier-model"}],
 }
 
 CHECKS["C14"] = {
@@ -177,12 +177,12 @@ CHECKS["C19"] = {
 
 _C15_TOPOS = [("synthetic_1x2x2", "pack:1 core:2 pu:2"), ("synthetic_2x2x1", "pack:2 core:2 pu:1"), ("synthetic_1x3x2", "pack:1 core:3 pu:2"),
               ("synthetic_1x2x3", "pack:1 core:2 pu:3"), ("synthetic_2x2x2", "pack:2 core:2 pu:2"), ("synthetic_1x4x2", "pack:1 core:4 pu:2"),
-              ("synthetic_2x4x1", "pack:2 core:4 pu:1"), ("synthetic_2x4x2", "pack:2 core:4 pu:2")]
+              ("synthetic_2x4x1", "pack:2 core:4 pu:1"), ("synthetic_1x4x2_osnum", "pack:1 core:4 pu:2(indexes=0,4,1,5,2,6,3,7)"), ("synthetic_2x4x2", "pack:2 core:4 pu:2")]
 CHECKS["C15"] = {
     "registered": True,
     "engine": "seqx",
     "technique": "exhaustive configuration grid: synthetic hwloc topologies x every process mask x binding modes x thread counts through the real affinity_data::init, plus a live grid on the real machine reading each worker's OS affinity",
-    "level_text": "For 8 synthetic topologies (4 to 16 PUs, with and without SMT, 1-2 sockets), every non-empty process mask (16 PUs: a structured family in the quick tier, all 65535 in the thorough tier), the binding modes compact / scatter / balanced / numa-balanced / none and every thread count from 1 to |mask|+1 are pushed through the real affinity_data::init: each worker must get exactly one PU inside the mask, no two workers the same PU, the reported PU number must be the bound one, |mask|+1 threads must be rejected and 'none' must leave workers unbound. Live grid: thread counts x 4 modes x 1-2 pools on the real 16-PU machine, each worker's sched_getaffinity read from a task and compared with what pika reports; pool sizes must add up.",
+    "level_text": "For 9 synthetic topologies (4 to 16 PUs, with and without SMT, 1-2 sockets, one with the interleaved OS numbering of a hyper-threaded machine so that OS and logical PU numbers differ), every non-empty process mask (16 PUs: a structured family in the quick tier, all 65535 in the thorough tier), the binding modes compact / scatter / balanced / numa-balanced / none and every thread count from 1 to |mask|+1 are pushed through the real affinity_data::init: each worker must get exactly one PU inside the mask, no two workers the same PU, the reported PU number must be the bound one, |mask|+1 threads must be rejected and 'none' must leave workers unbound. Live grid: thread counts x 4 modes x 1-2 pools on the real 16-PU machine, each worker's sched_getaffinity read from a task and compared with what pika reports; pool sizes must add up.",
     "level_note": "Topologies up to 16 PUs with homogeneous cores; process masks are injected through topology::set_cpubind_mask_main_thread (what --pika:process-mask does); pu_offset/pu_step left at their defaults; explicit affinity descriptions (thread:0=core:1...) are not enumerated.",
     "rule": "seqx grid over topologies x masks x modes x thread counts; live grid",
     "parts": [{"bin": "C15_affinity", "part": n, "args": ["--only", n], "env": {"HWLOC_SYNTHETIC": t, "HWLOC_THISSYSTEM": "0"}} for n, t in _C15_TOPOS]
